@@ -346,6 +346,13 @@ def items_to_mapping(
             # and the current bytecode offset difference is equal to the next line table
             # item difference, then advance the line table item.
             current_item = items[current_item_offset]
+            # An item which does not end at an instruction (an odd bytecode offset in a
+            # hand written table) would never be reached by stepping through the code
+            if (bytecode_offset - last_bytecode_offset) > current_item.bytecode_offset:
+                raise ValueError(
+                    "Line table item does not end at a bytecode offset: "
+                    f"{current_item}"
+                )
             if (bytecode_offset - last_bytecode_offset) == current_item.bytecode_offset:
                 current_line += current_item.line_offset  # type: ignore
                 current_item_offset += 1
